@@ -113,6 +113,11 @@ fn c06_c11_hybrid(case: &Case) {
     if case.get("abort_fetch") != 0 {
         return;
     }
+    // a throttled disk lookup returns before it reaches the load holder (Store::load checks the throttle switch first):
+    // a lookup-only caller's round can then be over before the fetching caller registers, and they are not "joined"
+    if case.get("throttle_loads") != 0 {
+        return;
+    }
     for k in 0..keys as u64 {
         let regs: Vec<&hist::Ev> = evs.iter().filter(|e| e.kind == "registered" && e.b == k).collect();
         if regs.is_empty() || regs.iter().any(|e| e.seq > unhold) {
